@@ -9,6 +9,10 @@
 (*                 to come, at every step                                  *)
 (*   Coverage      consecutive chunks are h apart; with h <= b every frame *)
 (*                 before the last chunk's end is covered                  *)
+(*   NthOK         nth(j) (= j times next, then next: layer 2) returns the *)
+(*                 (k+j)-th chunk iff it exists and leaves min(k+j+1,      *)
+(*                 Count) chunks consumed (layer 1), for j in 1..MaxJ      *)
+(*                 interleaved freely with next()                          *)
 (* (HintPinnedOK -- the size_hint formula of the pinned code -- is NOT an  *)
 (* invariant of the gating configurations: MC_Window_ascoded.cfg shows TLC *)
 (* refuting it, e.g. L = b.)  Also checks the Hann table and writes the    *)
@@ -16,33 +20,39 @@
 (***************************************************************************)
 EXTENDS Window, FiniteSets, TLC, Json, IOUtils, SequencesExt
 
-CONSTANTS MaxL, MaxB, MaxH
+CONSTANTS MaxL, MaxB, MaxH, MaxJ
 VARIABLES L, b, h,
           w,        \* layer 2: [off, rem]
-          k,        \* chunks yielded so far
-          last,     \* [some, at] of the last next()
-          done      \* next() has returned None
-vars == << L, b, h, w, k, last, done >>
+          k,        \* layer 2: chunks consumed so far (counted while stepping)
+          k1,       \* layer 1: chunks consumed so far (NthAfter)
+          last,     \* [some, at] of the last next() / nth(), and what layer 1 wants [wsome, wat]
+          done      \* next() / nth() has returned None
+vars == << L, b, h, w, k, k1, last, done >>
 
 Init == /\ L \in 0..MaxL /\ b \in 2..MaxB /\ h \in 1..MaxH
-        /\ w = WNew(L) /\ k = 0 /\ last = [some |-> FALSE, at |-> 0] /\ done = FALSE
-NextChunk ==
-  /\ ~done
-  /\ LET r == WNext(w, b, h) IN
-     /\ w' = r.w /\ last' = [some |-> r.some, at |-> r.at]
-     /\ k' = IF r.some THEN k + 1 ELSE k
-     /\ done' = ~r.some
+        /\ w = WNew(L) /\ k = 0 /\ k1 = 0 /\ done = FALSE
+        /\ last = [some |-> FALSE, at |-> 0, wsome |-> FALSE, wat |-> 0]
+\* nth(j); j = 0 is next()
+Advance(j) ==
+  /\ LET r == WNth(w, b, h, j) IN
+     /\ w' = r.w /\ k' = k + r.cnt /\ done' = ~r.some
+     /\ k1' = NthAfter(L, b, h, k1, j)
+     /\ last' = [some |-> r.some, at |-> r.at,
+                 wsome |-> NthHas(L, b, h, k1, j), wat |-> IF NthHas(L, b, h, k1, j) THEN ChunkOffset(k1 + j, h) ELSE r.at]
   /\ UNCHANGED << L, b, h >>
+NextChunk == ~done /\ Advance(0)
+NthChunk == ~done /\ \E j \in 1..MaxJ : Advance(j)
 \* None is sticky
 After == done /\ WNext(w, b, h).some = FALSE /\ UNCHANGED vars
-Next == NextChunk \/ After
+Next == NextChunk \/ NthChunk \/ After
 Spec == Init /\ [][Next]_vars
 
 ChunkContent == last.some => /\ last.at = ChunkOffset(k - 1, h)
                              /\ last.at + b <= L /\ HasChunk(L, b, h, k - 1)
 ChunkCount == /\ k <= Count(L, b, h)
               /\ (done => k = Count(L, b, h) /\ ~HasChunk(L, b, h, k))
-HintOK == ~done => WHint(w, b, h) = Remaining(L, b, h, k)
+HintOK == WHint(w, b, h) = Remaining(L, b, h, k)              \* also after the end: 0
+NthOK == k = k1 /\ last.some = last.wsome /\ last.at = last.wat
 HintPinnedOK == ~done => HintConsistent(WHintPinned(w, b, h), TRUE, WHintPinned(w, b, h), Remaining(L, b, h, k))
 Coverage == \* the remaining slice is exactly what layer 1 has not consumed
   ~done => (w.off + w.rem = L) /\ (w.rem > 0 => w.off = k * h) /\ (w.rem = 0 /\ k > 0 => k * h >= L)
@@ -55,12 +65,43 @@ ASSUME SineTableOK
 FrameVal(i, ch) == [c \in 1..ch |-> (IF i % 2 = 0 THEN 1 ELSE -1) * (1024 * ((i % 13) + 1) + 4096 * (c - 1) + 37 * i)]
 Fmts == { << "f64", 1 >>, << "f32", 1 >>, << "i16", 1 >>, << "i16", 2 >> }
 Ops(n) == [i \in 1..(2 * n) |-> IF i % 2 = 1 THEN [ev |-> "size_hint", a |-> [x |-> 0]] ELSE [ev |-> "next", a |-> [x |-> 0]]]
+WReset(kd, fc, LL, bb, hh) ==
+  [ev |-> "reset", comp |-> "windower",
+   cfg |-> [kind |-> kd, fmt |-> fc[1], ch |-> fc[2], b |-> bb, h |-> hh,
+            frames |-> [i \in 1..LL |-> FrameVal(i, fc[2])]]]
+\* schedules through nth / skip / step_by: for every (L, b, h) every nth(j) up to one past the last chunk from
+\* the start, the two around the last chunk after one next(), skip and step_by; a size hint after each
+\* (kind and frame format rotate with L + b + h + j instead of being multiplied in)
+Hint == [ev |-> "size_hint", a |-> [x |-> 0]]
+Nx == [ev |-> "next", a |-> [x |-> 0]]
+NthOp(j) == [ev |-> "nth", a |-> [k |-> j]]
+SkipOp(j) == [ev |-> "skip", a |-> [k |-> j]]
+StepOp(st, m) == [ev |-> "step_by", a |-> [s |-> st, m |-> m]]
+KF == << << "hann", << "f64", 1 >> >>, << "rect", << "i16", 2 >> >>, << "hann", << "i16", 1 >> >>, << "rect", << "f32", 1 >> >>,
+         << "hann", << "f32", 1 >> >>, << "rect", << "f64", 1 >> >>, << "hann", << "i16", 2 >> >>, << "rect", << "i16", 1 >> >> >>
+NthScheds(c) ==
+  { << 0, j, << Hint, NthOp(j), Hint, Nx, Hint >> >> : j \in 0..(c + 1) }
+  \cup { << 1, j, << Nx, NthOp(j), Hint, Nx >> >> : j \in { x \in {c - 2, c - 1} : x >= 0 } }
+  \cup { << 2, j, << SkipOp(j), Hint, Nx, Hint >> >> : j \in { x \in {0, c - 1, c} : x >= 0 } }
+  \cup { << 3, st, << StepOp(st, c + 1), Hint, Nx >> >> : st \in 1..3 }
+NthStim ==
+  UNION { { LET kf == KF[((LL + bb + hh + sc[1] + sc[2]) % 8) + 1] IN << WReset(kf[1], kf[2], LL, bb, hh) >> \o sc[3]
+            : sc \in NthScheds(Count(LL, bb, hh)) }
+          : LL \in 0..MaxL, bb \in 2..MaxB, hh \in 1..MaxH }
+\* the window functions themselves (dasp_window::Window::window) at the phases k/24, one ulp either side of
+\* the ends, and -- the rectangle is 1 EVERYWHERE -- outside [0, 1]
+EvalOp(nm, dn, u) == [ev |-> "eval", a |-> [num |-> nm, den |-> dn, ulps |-> u]]
+EvalIn == [i \in 1..25 |-> EvalOp(i - 1, 24, 0)] \o << EvalOp(1, 1, 0), EvalOp(1, 2, 0), EvalOp(0, 1, 0),
+            EvalOp(1, 1, -1), EvalOp(0, 1, 1), EvalOp(1, 3, 0), EvalOp(2, 7, 0), EvalOp(1, 2, 1), EvalOp(1, 2, -1) >>
+EvalOut == << EvalOp(1, 1, 1), EvalOp(0, 1, -1), EvalOp(-1, 4, 0), EvalOp(5, 4, 0), EvalOp(2, 1, 0), EvalOp(-1, 1, 0),
+              EvalOp(3, 2, 0), EvalOp(-1, 24, 0), EvalOp(25, 24, 0) >>
+FnStim == { << [ev |-> "reset", comp |-> "winfn", cfg |-> [kind |-> kd, fmt |-> f]] >>
+            \o (IF kd = "rect" THEN EvalIn \o EvalOut ELSE EvalIn)
+            : kd \in {"hann", "rect"}, f \in {"f64", "f32", "i16"} }
 Stimuli ==
-  { << [ev |-> "reset", comp |-> "windower",
-        cfg |-> [kind |-> kd, fmt |-> fc[1], ch |-> fc[2], b |-> bb, h |-> hh,
-                 frames |-> [i \in 1..LL |-> FrameVal(i, fc[2])]]] >>
-    \o Ops(Count(LL, bb, hh) + 2)
+  { << WReset(kd, fc, LL, bb, hh) >> \o Ops(Count(LL, bb, hh) + 2)
     : LL \in 0..MaxL, bb \in 2..MaxB, hh \in 1..MaxH, kd \in {"hann", "rect"}, fc \in Fmts }
+  \cup NthStim \cup FnStim
   \cup
   { << [ev |-> "reset", comp |-> "window", cfg |-> [kind |-> kd, fmt |-> f, n |-> nn]],
        [ev |-> "take", a |-> [n |-> nn]] >>
